@@ -70,6 +70,24 @@ def _loop_var_bounds(site, unit):
     for a in ancestors(site):
         if a.get('kind') == 'ForStmt':
             init, cv, cond, inc, body = for_parts(a)
+            # two indices walking towards each other: for (lo = 0, hi = D - 1; lo < hi; lo++, hi--) keeps both in [0, D)
+            vds_ = [x for x in walk(init) if x.get('kind') == 'VarDecl'] if init else []
+            if len(vds_) == 2 and all(kids(v_) for v_ in vds_) and cond is not None and inc is not None:
+                lo_, hi_ = vds_
+                rr = relation(cond, True)
+                hi_init = strip(kids(hi_)[-1])
+                while hi_init is not None and hi_init.get('kind') in ('ImplicitCastExpr', 'ParenExpr') and kids(hi_init):
+                    hi_init = strip(kids(hi_init)[0])
+                incs_ = [strip(y_) for y_ in (kids(strip(inc)) if strip(inc).get('kind') == 'BinaryOperator' and strip(inc).get('opcode') == ',' else [])]
+                ok2 = int_value(kids(lo_)[-1]) == 0 and rr is not None and (ref_decl(rr[0]) or {}).get('id') == lo_['id'] and rr[1] in ('<', '<=') and (ref_decl(rr[2]) or {}).get('id') == hi_['id'] and \
+                    hi_init is not None and hi_init.get('kind') == 'BinaryOperator' and hi_init.get('opcode') == '-' and int_value(hi_init['inner'][1]) == 1 and len(incs_) == 2 and \
+                    any(y_.get('kind') == 'UnaryOperator' and y_.get('opcode') == '++' and (ref_decl(y_['inner'][0]) or {}).get('id') == lo_['id'] for y_ in incs_) and \
+                    any(y_.get('kind') == 'UnaryOperator' and y_.get('opcode') == '--' and (ref_decl(y_['inner'][0]) or {}).get('id') == hi_['id'] for y_ in incs_) and \
+                    not ({lo_['id'], hi_['id']} & set(assigned_keys(body))) and (int_type_info(dtype(hi_)) or (0, False))[1]
+                if ok2:
+                    out[lo_['id']] = (0, hi_init['inner'][0], True, a)
+                    out[hi_['id']] = (0, hi_init['inner'][0], True, a)
+                    continue
             vd = next((x for x in walk(init) if x.get('kind') == 'VarDecl'), None) if init else None
             if vd is None or not kids(vd):
                 continue
@@ -653,6 +671,37 @@ def check_buffer_format(ctx, u, methods):
                     if x.get('opcode') == '=' and x.get('_off', 0) > size_site.get('_off', 0):
                         sub = sub.replace(canon(x['inner'][0]), nf(x['inner'][1]))
                 ok = _poly_equal(sc, sub)
+                if not ok:
+                    # the same comparison on polynomials (hoisted factors, `alpha ? 4 : 3` for `3 + alpha`)
+                    from poly import Poly as _P7, p_mul as _pm7, p_add as _pa7, p_const as _pc7, p_atom as _pt7
+                    import re as _re7
+                    got_p = _P7(f, u).poly(size)
+                    want_p = _pc7(1)
+                    fs_ = sub.strip()
+                    fs_ = fs_[1:-1] if fs_.startswith('(') and fs_.endswith(')') else fs_
+                    depth_, cur_, parts_ = 0, '', []
+                    i_ = 0
+                    while i_ < len(fs_):
+                        ch_ = fs_[i_]
+                        depth_ += ch_ == '('
+                        depth_ -= ch_ == ')'
+                        if depth_ == 0 and fs_.startswith(' * ', i_):
+                            parts_.append(cur_)
+                            cur_ = ''
+                            i_ += 3
+                            continue
+                        cur_ += ch_
+                        i_ += 1
+                    parts_.append(cur_)
+                    for pt_ in parts_:
+                        m_ = _re7.match(r'^\((\d+) \+ (.+)\)$', pt_)
+                        if m_:
+                            want_p = _pm7(want_p, _pa7(_pc7(int(m_.group(1))), _pt7(m_.group(2))))
+                        elif pt_.isdigit():
+                            want_p = _pm7(want_p, _pc7(int(pt_)))
+                        else:
+                            want_p = _pm7(want_p, _pt7(pt_))
+                    ok = got_p == want_p
                 why = 'allocation size %s differs from the invariant %s under the fields committed by this function' % (sc, sub)
             ctx.check(ok, R, key0 + '|alloc-size#%d' % i, a, 'buffer allocated with the invariant size', why)
 
@@ -921,6 +970,75 @@ def check_clamp_by_evaluation(ctx, u):
     return True
 
 
+def check_culling_guards(ctx, u, methods):
+    """C07-R9: an early-out that skips drawing because a position lies beyond a canvas edge must cover
+    everything the skipped code would have drawn (the background box of a text cell is one pixel larger
+    than its glyph): otherwise the result depends on where the canvas ends."""
+    from poly import Poly, p_add, p_const
+    R = 'C07-R9'
+    n = 0
+    for f in methods:
+        if body_of(f) is None or f.get('name') not in ('draw_text_v', 'draw_text', 'draw_horizontal_line', 'draw_vertical_line', 'fill_rect'):
+            continue
+        for g in walk(body_of(f)):
+            if g.get('kind') != 'IfStmt':
+                continue
+            cond, then, els = if_parts(g)
+            st = [strip(x) for x in stmts_of(then)] if then is not None else []
+            if els is not None or len(st) != 1 or st[0].get('kind') not in ('ReturnStmt', 'ContinueStmt', 'BreakStmt'):
+                continue
+            host = enclosing(g, ('CXXMethodDecl', 'FunctionDecl')) or f
+            PL = Poly(host, u)
+            edge_atoms = []
+
+            def disjuncts(e):
+                e0 = strip(e)
+                while e0 is not None and e0.get('kind') in ('ParenExpr', 'ImplicitCastExpr') and kids(e0):
+                    e0 = strip(kids(e0)[0])
+                if e0 is not None and e0.get('kind') == 'BinaryOperator' and e0.get('opcode') == '||':
+                    return disjuncts(e0['inner'][0]) + disjuncts(e0['inner'][1])
+                return [e0]
+            # each disjunct on its own triggers the skip
+            for n_, pol in [(x_, p_) for dj in disjuncts(cond) for x_, p_ in atoms([Fact(dj, True, g)])]:
+                r = relation(n_, pol)
+                if not r:
+                    continue
+                for a_, o_, b_ in ((r[0], r[1], r[2]), (r[2], FLIP[r[1]], r[0])):
+                    bc = canon(b_)
+                    if o_ in ('>=', '>') and bc in ('this.width', 'this.height', 'this.get_width()', 'this.get_height()'):
+                        edge_atoms.append(('far', 'x' if 'width' in bc else 'y', PL.poly(a_), 0 if o_ == '>=' else 1, n_))
+                    if o_ in ('<=', '<') and int_value(b_) == 0:
+                        edge_atoms.append(('near', None, PL.poly(a_), 0 if o_ == '<=' else -1, n_))
+            if not edge_atoms:
+                continue
+            # drawing calls that the skip bypasses: later statements of the same block (and the rest of the loop body)
+            later = [x for x in walk(enclosing(g, ('CompoundStmt',))) if x.get('_off', 0) > g.get('_off', 0)]
+            rects = []
+            for c in later:
+                if c.get('kind') == 'CXXMemberCallExpr' and call_name(c) == 'fill_rect' and len(call_args(c)) >= 4:
+                    a = call_args(c)
+                    rects.append((c, PL.poly(a[0]), PL.poly(a[1]), PL.poly(a[2]), PL.poly(a[3])))
+            for kind, axis, E, adj, node in edge_atoms:
+                for c, x0, y0, w, h in rects:
+                    for ax, o0, ext in (('x', x0, w), ('y', y0, h)):
+                        if axis is not None and axis != ax:
+                            continue
+                        if kind == 'far':
+                            d = p_add(o0, E, -1)           # first drawn coordinate - E  must be >= 0
+                            if list(d) in ([], [()]):
+                                n += 1
+                                ctx.check(d.get((), 0) + adj >= 0, R, '%s|cull@%s|%s' % (f.get('name'), g.get('_line'), src_text(node, 30)), g, 'everything skipped lies beyond the edge',
+                                          'the early-out `%s` skips `%s`, which starts %d pixel(s) before that position: when the position is exactly at the canvas edge, pixels inside the canvas are not drawn and the result differs from the same drawing on a larger canvas' % (src_text(node, 40), src_text(c, 50), -(d.get((), 0) + adj)))
+                        else:
+                            d = p_add(E, p_add(o0, ext), -1)  # E - (last drawn coordinate + 1) must be >= 0
+                            if list(d) in ([], [()]):
+                                n += 1
+                                ctx.check(d.get((), 0) + adj >= 0, R, '%s|cull@%s|%s' % (f.get('name'), g.get('_line'), src_text(node, 30)), g, 'everything skipped lies before the edge',
+                                          'the early-out `%s` skips `%s`, which extends %d pixel(s) past that position: when the cell ends exactly at the canvas edge, pixels inside the canvas are not drawn and the result differs from the same drawing on a larger canvas' % (src_text(node, 40), src_text(c, 50), -(d.get((), 0) + adj)))
+    if n == 0:
+        ctx.ok(R, 'no-culling-guards', 'Image.cc', 'no drawing routine skips work by comparing a position with a canvas edge', nontrivial=False)
+
+
 def check_swallow_granularity(ctx, u, methods):
     R = 'C07-R7'
     n = 0
@@ -958,6 +1076,7 @@ def run(ctx):
     ctx.rule('C07-R5', 'buffer/format consistency: a function that changes width/height/has_alpha/channel_width unconditionally commits a new buffer; every allocation has the invariant size for the format committed', 10)
     ctx.rule('C07-R6', 'lane maps: expand/compress_color inverse byte layouts; widen-then-narrow of every channel-width pair is the identity (E-BITS); abs resolves to the 64-bit overload; glyph indices stay inside the font table', 18)
     ctx.rule('C07-R8', 'clamp_blit_dimensions by evaluation (E-TABLE): folded on a grid of canvas sizes (0, 1, 3), origins and source origins (-3..4) and extents (-1..6) on each axis, the area it leaves is exactly the set of (dest, source) pixel pairs inside both canvases', 1)
+    ctx.rule('C07-R9', 'culling: an early-out that compares a drawing position with a canvas edge covers the whole extent of the drawing calls it skips (clipping invariance of text cells and their background box)', 1)
     ctx.rule('C07-R7', 'clipping by catch is per pixel: a try block whose handler swallows the exception of an out-of-canvas pixel access contains one pixel access and no loop, so one clipped pixel never skips the pixels after it', 1)
     u = ctx.unit(repo_unit('Image.cc'))
     methods = image_methods(u)
@@ -975,5 +1094,8 @@ def run(ctx):
     check_buffer_format(ctx, u, methods)
     with ctx.section('C07-R7', 'C07'):
         check_swallow_granularity(ctx, u, methods)
-    check_lane_maps(ctx, u, methods)
+    with ctx.section('C07-R9', 'C07'):
+        check_culling_guards(ctx, u, methods)
+    with ctx.section('C07-R6', 'C07'):
+        check_lane_maps(ctx, u, methods)
     ctx.note('resize_blit performs no clipping by design and is not in the property\'s list. Not decided: equality with the per-pixel model, clipping invariance, line geometry, blend arithmetic.')
